@@ -34,11 +34,13 @@ func Summary$1 returns (err)
   props C08 C09 C10 C17
   refines utils.ResolvedCallback
   modifies *
+  captured logStream != nil
   captured sc.ReporterConfig.Output != nil && !typeis(sc.ReporterConfig.Output, "*bufio.Writer") && !typeis(sc.ReporterConfig.Output, "*encoding/csv.Writer")
   defines CbOut(self) == payload(sc.ReporterConfig.Output) && CbLog(self) == payload(logStream) && CbCC(self) == sc.ParserConfig.CommentChar
 
 func Summary returns (err)
   props C08 C09 C10 C17
+  requires @streams logStream != nil && dbStream != nil
   requires @sink sc.ReporterConfig.Output != nil && !typeis(sc.ReporterConfig.Output, "*bufio.Writer") && !typeis(sc.ReporterConfig.Output, "*encoding/csv.Writer") && TreeInv()
   modifies *
   modifies ghost(cbLen, cbErr, cbNode, cbStop, cbRet, cbLineNo, cbLine, cbHeader, cbElems, cbNElems, scRd, scPos, privLo, evOf, accKey, accP, accN, accH, bufSink, bufSticky, sinkFailed, sinkPend, prLen, prSink, prArg, prArgs, csvLen, csvW, csvN, csvRow, tnodes, tdepth, tmax, tmapOf, jlen)
